@@ -45,6 +45,9 @@ pub enum WStep {
 
 #[derive(Clone, Debug, Serialize, Deserialize)]
 pub struct FaultCase {
+    /// also inject ErrorKind::Interrupted (std's read_exact / write_all retry it internally) at every position
+    #[serde(default)]
+    pub with_interrupted: bool,
     pub workload: String,
     pub version: u16,
     pub max_buf: usize,
@@ -82,7 +85,7 @@ struct Env {
     content: BTreeMap<String, Option<Vec<u8>>>,
     /// content a stream had when set_len failed on it: if the retried set_len returns Ok (and no
     /// write was accepted in between) the stream must hold this content resized
-    pending_resize: BTreeMap<String, Vec<u8>>,
+    pending_resize: BTreeMap<String, (u64, Vec<u8>)>,
     strict: bool,
     max_buf: usize,
     version: u16,
@@ -339,6 +342,10 @@ impl Env {
             WStep::Flush(h) => {
                 let path = self.handle(*h)?.path.clone();
                 self.handle(*h)?.s.flush().map_err(es)?;
+                // Ok flush => the underlying writer has been flushed after its last write
+                if self.ctl.unflushed() {
+                    problems.push(("lost".into(), format!("step {} flush returned Ok but the underlying writer was not flushed after its last write", idx)));
+                }
                 // Ok flush => every accepted byte is read back by a fresh handle
                 let was = pause(&self.ctl);
                 let want = self.content.get(&path).cloned().flatten();
@@ -386,17 +393,20 @@ impl Env {
                     Ok(()) => {
                         if let Some(Some(m)) = self.content.get_mut(&path) {
                             m.resize(*n as usize, 0);
-                        } else if let Some(mut old) = self.pending_resize.remove(&path) {
-                            // the retry of a failed set_len succeeded: nothing accepted earlier may be lost
-                            old.resize(*n as usize, 0);
-                            self.content.insert(path.clone(), Some(old));
+                        } else if let Some((failed_n, mut old)) = self.pending_resize.remove(&path) {
+                            // the retry of the failed set_len (same size) succeeded: nothing accepted earlier
+                            // may be lost.  A set_len to another size proves nothing (it may be a no-op).
+                            if failed_n == *n {
+                                old.resize(*n as usize, 0);
+                                self.content.insert(path.clone(), Some(old));
+                            }
                         }
                         self.pending_resize.remove(&path);
                         Ok("resized".into())
                     }
                     Err(e) => {
                         if let Some(Some(old)) = self.content.get(&path).cloned() {
-                            self.pending_resize.entry(path.clone()).or_insert(old);
+                            self.pending_resize.entry(path.clone()).or_insert((*n, old));
                         }
                         self.content.insert(path, None);
                         Err(es(e))
@@ -587,6 +597,12 @@ pub enum Pairs {
 }
 
 pub fn explore(ctx: &Ctx, base_case: &FaultCase, base: Option<&(Vec<u8>, BTreeMap<String, Vec<u8>>)>, kinds: &[CallKind], pairs: Pairs) -> FaultStats {
+    explore_from(ctx, base_case, base, kinds, pairs, 0)
+}
+
+/// As `explore`, with single faults only at underlying calls made by steps with index >= `from_step`
+/// (the steps before it build a starting state whose own faults are covered elsewhere).
+pub fn explore_from(ctx: &Ctx, base_case: &FaultCase, base: Option<&(Vec<u8>, BTreeMap<String, Vec<u8>>)>, kinds: &[CallKind], pairs: Pairs, from_step: usize) -> FaultStats {
     let mut stats = FaultStats { runs: 0, calls: 0, positions: 0, faults_delivered: 0 };
     let reference = run_case(base_case, base, None);
     stats.runs += 1;
@@ -610,7 +626,7 @@ pub fn explore(ctx: &Ctx, base_case: &FaultCase, base: Option<&(Vec<u8>, BTreeMa
         }
         v
     };
-    let singles: Vec<u64> = reference.log.iter().enumerate().filter(|(_, (k, _))| kinds.contains(k)).map(|(i, _)| i as u64).collect();
+    let singles: Vec<u64> = reference.log.iter().enumerate().filter(|(_, (k, tag))| kinds.contains(k) && *tag as usize > from_step).map(|(i, _)| i as u64).collect();
     // index of the first underlying call made after the first step
     let first_step_end: u64 = reference.log.iter().position(|(_, tag)| *tag > 1).unwrap_or(reference.log.len()) as u64;
     stats.positions = singles.len() as u64;
@@ -629,6 +645,17 @@ pub fn explore(ctx: &Ctx, base_case: &FaultCase, base: Option<&(Vec<u8>, BTreeMa
             let mut runs = 0u64;
             let mut calls = 0u64;
             let mut delivered = 0u64;
+            if base_case.with_interrupted {
+                let mut ci = base_case.clone();
+                ci.plan = vec![(k1, Fault::Interrupted)];
+                crate::watch::enter(json!({"kind": "fault", "fault": ci}));
+                let ri = run_case(&ci, base, Some(&refs));
+                crate::watch::leave();
+                runs += 1;
+                calls += ri.calls;
+                delivered += ri.delivered as u64;
+                report_problems(ctx, &ci, &ri);
+            }
             let mut c = base_case.clone();
             c.plan = vec![(k1, Fault::Fail)];
             crate::watch::enter(json!({"kind": "fault", "fault": c}));
@@ -851,6 +878,85 @@ pub fn mutating_workloads() -> Vec<(String, usize, Vec<WStep>)> {
         ],
     ));
     v
+}
+
+/// Generated mutating workloads: a prefix that fixes the starting state of stream /a (empty, a
+/// flushed mini stream, a flushed regular stream), then EVERY sequence of `depth` steps over a
+/// step alphabet on that handle and on a second small stream, then flushes of everything.
+pub fn generated_mutating_workloads(depth: usize) -> Vec<(String, usize, Vec<WStep>, usize)> {
+    let prefixes: Vec<(&str, Vec<WStep>)> = vec![
+        ("empty", vec![WStep::Create, WStep::CreateStream(0, "/a".into())]),
+        ("mini300", vec![WStep::Create, WStep::CreateStream(0, "/a".into()), WStep::Write(0, 300), WStep::Flush(0)]),
+        ("regular5000", vec![WStep::Create, WStep::CreateStream(0, "/a".into()), WStep::Write(0, 5000), WStep::Flush(0)]),
+    ];
+    let alpha: Vec<WStep> = vec![
+        WStep::Write(0, 100),
+        WStep::Write(0, 4000),
+        WStep::Flush(0),
+        WStep::SetLen(0, 0),
+        WStep::SetLen(0, 200),
+        WStep::SetLen(0, 5000),
+        WStep::SeekStart(0, 0),
+        WStep::SeekEnd(0, 0),
+        WStep::CreateStream(1, "/b".into()),
+        WStep::Write(1, 200),
+        WStep::SetLen(1, 0),
+        WStep::RemoveStream("/b".into()),
+    ];
+    let mut seqs: Vec<Vec<usize>> = vec![vec![]];
+    for _ in 0..depth {
+        let mut next = Vec::new();
+        for q in &seqs {
+            for i in 0..alpha.len() {
+                // handle 1 must exist before it is used, and must have been dropped before /b is removed
+                let has_b = q.iter().fold(false, |acc, &j| match alpha[j] {
+                    WStep::CreateStream(1, _) => true,
+                    WStep::RemoveStream(_) => false,
+                    _ => acc,
+                });
+                let ok = match alpha[i] {
+                    WStep::Write(1, _) | WStep::SetLen(1, _) | WStep::RemoveStream(_) => has_b,
+                    WStep::CreateStream(1, _) => !has_b,
+                    _ => true,
+                };
+                if ok {
+                    let mut t = q.clone();
+                    t.push(i);
+                    next.push(t);
+                }
+            }
+        }
+        seqs = next;
+    }
+    let mut out = Vec::new();
+    for (pname, pre) in &prefixes {
+        for q in &seqs {
+            let mut steps = pre.clone();
+            for &i in q {
+                if let WStep::RemoveStream(_) = alpha[i] {
+                    // the handle on /b is flushed and dropped first (a held stream is never removed)
+                    steps.push(WStep::Flush(1));
+                    steps.push(WStep::DropHandle(1));
+                }
+                steps.push(alpha[i].clone());
+            }
+            let has_b = q.iter().fold(false, |acc, &j| match alpha[j] {
+                WStep::CreateStream(1, _) => true,
+                WStep::RemoveStream(_) => false,
+                _ => acc,
+            });
+            steps.push(WStep::Flush(0));
+            if has_b {
+                steps.push(WStep::Flush(1));
+                steps.push(WStep::DropHandle(1));
+            }
+            steps.push(WStep::DropHandle(0));
+            steps.push(WStep::CompFlush);
+            let name = format!("gen:{}:{}", pname, q.iter().map(|i| i.to_string()).collect::<Vec<_>>().join("."));
+            out.push((name, 1 << 20, steps, pre.len()));
+        }
+    }
+    out
 }
 
 // ---------------------------------------------------------------------- //
